@@ -337,7 +337,7 @@ def run(ctx):
                 raise MachineryError(res.error_trace)
     if ctx.only in (None, 'c2s'):
         wd = str(ctx.tmpdir('c11_'))
-        n = 80 if quick else 800
+        n = 80 if quick else 2400
         refs = [gen_reference(rng, wide=(i % 27 == 5)) for i in range(n)]
         with cf.ProcessPoolExecutor(max_workers=8) as ex:
             outs = list(ex.map(_case, [(r, wd) for r in refs]))
